@@ -6,7 +6,8 @@ tie:     translator/purity.py checks on /repo, fail-closed, that set_config / re
          store, the candle arguments are deep-copied and the prologue/epilogue are in the modelled order
 search:  subprocess differential: a history of earlier calls (other exchange names, spot/futures, leverage, fee, balance, routes, warm-up, simulator,
          calls that abort from a hook or an order rejection) followed by a probe call, against the probe call in a fresh process; arguments
-         fingerprinted before and after every call
+         fingerprinted before and after every call and again
+         after all later calls; the probe repeated with the very same argument objects
 """
 import json
 import os
@@ -88,7 +89,9 @@ def run(tier, seed, replay=None):
             hist.append(h_)
         if k % 4 == 1:
             hist[-1]['exchange'] = rng.choice([e for e in EXCHANGES if e != probe['exchange']])     # another exchange name right before
-        specs.append({'history': hist, 'probe': probe})
+        if k % 2 == 0 and not probe['data']:
+            probe['data'] = [t for t in (['1h'] if k % 4 == 0 else ['15m', '1h']) if t != probe['timeframe']]     # the route lists are not empty
+        specs.append({'history': hist, 'probe': probe, 'again': k % 2 == 0})
     jobs = []
     for k, sp in enumerate(specs):
         jobs.append((k, 'after', sp)); jobs.append((k, 'fresh', {'history': [], 'probe': sp['probe']}))
@@ -96,7 +99,7 @@ def run(tier, seed, replay=None):
         outs = list(ex.map(lambda j: run_worker(j[2], f'{j[0]}_{j[1]}'), jobs))
     werr = [e for (_, e) in outs if e]
     res.oblige('every worker process returned a result', not werr, '\n'.join(werr[:2])[:1500])
-    diffs, mods, aborted, compared = [], [], 0, 0
+    diffs, mods, aborted, compared, again = [], [], 0, 0, []
     for k, sp in enumerate(specs):
         a, f = outs[2 * k][0], outs[2 * k + 1][0]
         if a is None or f is None:
@@ -105,6 +108,11 @@ def run(tier, seed, replay=None):
         aborted += sum(1 for h in a['history'] if h['error'])
         if a['args_modified'] or f['args_modified']:
             mods.append({'spec': sp, 'modified_by': a['args_modified'] or f['args_modified']})
+        if a.get('probe_again') is not None and a['probe_again'] != a['probe']:
+            keys = [key for key in a['probe'] if a['probe'][key] != a['probe_again'][key]]
+            again.append({'differs_in': keys, 'history': sp['history'], 'probe': sp['probe'],
+                          'first_call': {k_: a['probe'][k_] for k_ in ('error', 'orders', 'trace_len', 'metrics', 'first_events')},
+                          'second_call_same_argument_objects': {k_: a['probe_again'][k_] for k_ in ('error', 'orders', 'trace_len', 'metrics', 'first_events')}})
         if a['probe'] != f['probe']:
             keys = [key for key in a['probe'] if a['probe'][key] != f['probe'][key]]
             diffs.append({'differs_in': keys, 'history': sp['history'], 'probe': sp['probe'], 'history_outcomes': a['history'],
@@ -116,6 +124,8 @@ def run(tier, seed, replay=None):
     res.extra.update({'histories': n, 'compared': compared, 'earlier_calls_that_aborted': aborted, 'probe_orders': sum((o[0] or {}).get('probe', {}).get('orders', 0) for o in outs[1::2])})
     if diffs:
         res.violation('probe_differs_after_history', 'the probe call returns something else after a history of earlier calls than in a fresh process', diffs[0])
+    if again:
+        res.violation('probe_differs_when_repeated', 'calling research.backtest a second time with the very same argument objects returns something else', again[0])
     if mods:
         res.violation('arguments_modified', 'research.backtest modified its arguments', mods[0])
     return res.finish()
